@@ -147,29 +147,32 @@ retried in part or in whole, IDs repeated inside a bulk, documents in any time o
 current `From`/`To` on either side: at every moment (every prefix of the history is a history) the info of the
 active fraction reports every range that holds a stored document as intersecting, so `Info()` never lags behind what
 the fraction's data provider can return ... -/
-theorem c14_info_sound_retried (ct : Nat) (hist : List (List (Nat × Nat))) (id : Nat × Nat) (qf qt : Nat)
-    (hid : id ∈ (hist.foldl ingestBulk (newInfo ct, [])).2) (h1 : qf ≤ id.1) (h2 : id.1 ≤ qt) :
-    FracInfo.isIntersecting (hist.foldl ingestBulk (newInfo ct, [])).1 qf qt = true := by
-  have hcov := covers_ingest_foldl (st := (newInfo ct, [])) (covers_new ct) hist
+theorem c14_info_sound_retried (ct : Nat) (hist : List (List Entry)) (id : Nat × Nat) (qf qt : Nat)
+    (hid : id ∈ (hist.foldl ingestBulk (newActive ct)).ids) (h1 : qf ≤ id.1) (h2 : id.1 ≤ qt) :
+    FracInfo.isIntersecting (hist.foldl ingestBulk (newActive ct)).info qf qt = true := by
+  have hcov := covers_ingest_foldl (st := newActive ct) (covers_new ct) hist
   exact isIntersecting_nodist hcov (by rw [(ingest_dist _ hist).1]; rfl) (List.mem_map_of_mem hid) h1 h2
 
 /-- ... and so does the info written when that fraction is sealed (stale borders would be copied into it) -/
-theorem c14_info_sound_retried_sealed (ct : Nat) (hist : List (List (Nat × Nat))) (id : Nat × Nat) (qf qt : Nat)
-    (hid : id ∈ (hist.foldl ingestBulk (newInfo ct, [])).2) (h1 : qf ≤ id.1) (h2 : id.1 ≤ qt)
+theorem c14_info_sound_retried_sealed (ct : Nat) (hist : List (List Entry)) (id : Nat × Nat) (qf qt : Nat)
+    (hid : id ∈ (hist.foldl ingestBulk (newActive ct)).ids) (h1 : qf ≤ id.1) (h2 : id.1 ≤ qt)
     (hqt : qt < 18446744073709551616) :
     FracInfo.isIntersecting
-      (buildDistribution consts (hist.foldl ingestBulk (newInfo ct, [])).1
-        (FracInfo.systemMID :: (hist.foldl ingestBulk (newInfo ct, [])).2.map Prod.fst)) qf qt = true := by
-  have hcov := covers_ingest_foldl (st := (newInfo ct, [])) (covers_new ct) hist
+      (buildDistribution consts (hist.foldl ingestBulk (newActive ct)).info
+        (FracInfo.systemMID :: (hist.foldl ingestBulk (newActive ct)).ids.map Prod.fst)) qf qt = true := by
+  have hcov := covers_ingest_foldl (st := newActive ct) (covers_new ct) hist
   exact isIntersecting_build c14_x_good_consts hcov (by rw [(ingest_dist _ hist).1]; rfl)
     (fun x hx => List.mem_cons_of_mem _ hx) (List.mem_map_of_mem hid) h1 h2 hqt
 
 /-- non-vacuity, the shape that needs two independent comparisons: bulk 1 = {A, B}; the retry carries the newest
-document N first, then the duplicate A, then an older document O: survivors `[N, O]`, `To` must become N -/
+document N first, then the duplicate A (at a new position: dropped), then an older document O: survivors `[N, O]`,
+`To` must become N.  A nested meta (the ID of N again at N's position) IS appended and counted. -/
 example :
-    let st := [[(2000, 1), (2100, 2)], [(9000, 3), (2000, 1), (1000, 4)]].foldl ingestBulk (newInfo 100000, [])
-    st.1.ifrom = 1000 ∧ st.1.ito = 9000 ∧ st.1.docsTotal = 4 ∧ st.2 = [(2000, 1), (2100, 2), (9000, 3), (1000, 4)] ∧
-    FracInfo.isIntersecting st.1 9000 9000 = true := by decide
+    let st := [[((2000, 1), 10), ((2100, 2), 11)], [((9000, 3), 20), ((9000, 3), 20), ((2000, 1), 21), ((1000, 4), 22)]].foldl
+      ingestBulk (newActive 100000)
+    st.info.ifrom = 1000 ∧ st.info.ito = 9000 ∧ st.info.docsTotal = 5 ∧
+    st.ids = [(2000, 1), (2100, 2), (9000, 3), (9000, 3), (1000, 4)] ∧
+    FracInfo.isIntersecting st.info 9000 9000 = true := by decide
 
 /-- **Info soundness survives persistence**: the info restored from the index info block / `.frac-cache`
 (distribution through its JSON image) equals the sealed one, for creation times before the year 292 million. -/
@@ -178,6 +181,40 @@ theorem c14_info_persist (ct : Nat) (hct : ct < 9223372036854775808) (bulks : Li
   unfold sealed
   exact persist_build c14_x_good_consts (by rw [foldl_appendBulk_dist]; rfl)
     (by rw [foldl_appendBulk_creationTime]; exact hct) _
+
+/-- **`.frac-cache`: the loaded info of a fraction depends only on its own entry** (no state is shared between
+entries), an entry without a distribution stays without one, and for sealed fractions the load is the identity -/
+theorem c14_cache_load_pointwise (entries : List (String × Info)) (i : Nat) (hi : i < entries.length) :
+    (cacheLoad entries)[i]'(by simpa [cacheLoad] using hi) = (entries[i].1, persist? entries[i].2) ∧
+    (entries[i].2.dist = none → persist? entries[i].2 = some entries[i].2) := by
+  refine ⟨by simp [cacheLoad], fun h => ?_⟩
+  unfold persist?; simp only [h]
+
+theorem c14_cache_load_sealed (specs : List (String × Nat × List (List Nat)))
+    (hct : ∀ e, e ∈ specs → e.2.1 < 9223372036854775808) :
+    cacheLoad (specs.map fun e => (e.1, sealed consts e.2.1 e.2.2)) =
+      specs.map fun e => (e.1, some (sealed consts e.2.1 e.2.2)) := by
+  unfold cacheLoad
+  rw [List.map_map]
+  apply List.map_congr_left
+  intro e he
+  simp only [Function.comp]
+  rw [c14_info_persist e.2.1 (hct e he)]
+
+/-- **a legacy cache entry (no distribution) is still sound**: with `Distribution == nil` only the borders decide, so
+every range that holds a document of the fraction is reported (nothing may be installed in its place on load) -/
+theorem c14_info_sound_legacy (ct : Nat) (bulks : List (List Nat)) (m qf qt : Nat)
+    (hm : m ∈ bulks.flatten) (h1 : qf ≤ m) (h2 : m ≤ qt) :
+    FracInfo.isIntersecting (legacyEntry (sealed consts ct bulks)) qf qt = true := by
+  have hcov := covers_foldl (covers_new ct) bulks
+  simp only [List.nil_append] at hcov
+  have hf := buildDistribution_fields consts (bulks.foldl appendBulk (newInfo ct)) (FracInfo.systemMID :: bulks.flatten)
+  have hcov' : Covers (legacyEntry (sealed consts ct bulks)) bulks.flatten := by
+    unfold legacyEntry sealed
+    exact ⟨fun x hx => by simp only; rw [hf.1]; exact hcov.lo x hx,
+           fun x hx => by simp only; rw [hf.2.1]; exact hcov.hi x hx,
+           by simp only; rw [hf.2.2.1]; exact hcov.cnt⟩
+  exact isIntersecting_nodist hcov' rfl hm h1 h2
 
 /-- `Contains(mid)` (the fetch path) -/
 theorem c14_contains_sound (ct : Nat) (bulks : List (List Nat)) (m : Nat) (hm : m ∈ bulks.flatten)
@@ -567,5 +604,19 @@ theorem c14_x_proxy_info_live :
     proxyContains = ["return f.cur().Contains(mid)"] ∧
     proxyCur = ["f.useMu.RLock()", "defer f.useMu.RUnlock()", "if f.sealed == nil { return f.active }", "return f.sealed"] ∧
     proxyInfoFields = [] := by decide
+
+/-- **`.frac-cache` load = one `json.Unmarshal` into the map** (every entry decoded into its own fresh `Info`: no target
+is reused between entries), written by one `json.Marshal` of the same map; `NewFracCacheFromDisk` does nothing after
+`LoadFromDisk`; the loader hands the cached info to `NewSealed` as it is; and `InitEmptyDistribution` is called only by
+`BuildDistribution` (sealing) and the offline `cmd/distribution` tool - never on a load path, so a cached info without
+a distribution keeps `Distribution == nil` (`c14_info_sound_legacy`). -/
+theorem c14_x_cache_load :
+    newFracCacheFromDisk = ["fc := NewSealedFracCache(filePath)", "fc.LoadFromDisk(filePath)", "return fc"] ∧
+    cacheLoadCalls = ["os.ReadFile(fileName)", "json.Unmarshal(content, &fc.fracCache)"] ∧
+    cacheSaveMarshal = ["json.Marshal(fc.fracCache)"] ∧
+    loadSealedFrac = ["cachedInfo, ok := diskFracCache.GetFracInfo(filepath.Base(info.base))",
+      "if ok { l.cachedFracs++ } else { l.uncachedFracs++ }", "sealed := l.fracProvider.NewSealed(info.base, cachedInfo)",
+      "stats := sealed.Info()", "l.fracCache.AddFraction(stats.Name(), stats)", "return sealed"] ∧
+    initEmptyDistributionCallers = ["cmd/distribution/main.go:main", "frac/info.go:BuildDistribution"] := by decide
 
 end SV.Props.C14
